@@ -292,6 +292,42 @@ def validate_parallel(work, lines, tag, parts):
     return rejs, tot
 
 
+def selftest(work, lines):
+    """Negative self-test of the trace specification: the first recorded trace, with the bytes one lookup returned
+    replaced by bytes that were never stored, must be rejected by TLC.  Returns the number of rejections."""
+    import copy
+    if not lines:
+        raise vlib.Broken("no trace lines")
+    t = lines[0]["t"]
+    tr = copy.deepcopy([ln for ln in lines if ln["t"] == t])
+    hit = None
+    for i, ln in enumerate(tr):
+        if ln["ev"] == "Get" and ln["s"].get("res"):
+            hit = i
+            break
+    if hit is None:
+        # no successful lookup in the first trace: corrupt a not-found into a found instead
+        for i, ln in enumerate(tr):
+            if ln["ev"] == "Get":
+                ln["s"]["res"] = [{"id": ln["a"]["id"], "tag": "zz"}]
+                ln["s"]["code"] = "OK"
+                hit = i
+                break
+    else:
+        tr[hit]["s"]["res"][0]["tag"] = "zz"
+    if hit is None:
+        return -1
+    tr = tr[:hit + 60]          # the corrupted line and what follows it (C16: the rest of the lookups after the reopen)
+    while tr and tr[-1]["ev"] == "StoreAcked":
+        tr.pop()
+    bad_n = tr[hit]["n"] if hit < len(tr) else -1
+    rejs, _ = validate(work, tr, "selftest")
+    rejs = [r for r in rejs if r["n"] == bad_n or r["ev"] == "Kill"]     # the corrupted lookup itself, or the kill it follows (C16)
+    if not rejs:
+        raise vlib.Broken("negative self-test failed: Trace_Store accepted a trace with a corrupted lookup result")
+    return len(rejs)
+
+
 # ------------------------------------------------------------------ attribution of rejections
 
 def gap_of(seqs):
